@@ -3,7 +3,7 @@ import os
 import sys
 import z3
 sys.path.insert(0, os.path.dirname(os.path.dirname(os.path.abspath(__file__))))
-from props.common import witnesses_for, failure_name, main, Run, run_child, ALL_SIDECARS  # noqa: E402
+from props.common import witnesses_for, failure_name, main, Run, run_child, ALL_SIDECARS, bounded_companion  # noqa: E402
 from props import faces  # noqa: E402
 
 SIDE = ALL_SIDECARS
@@ -37,6 +37,9 @@ def make_replayer(run):
 def build(run: Run):
     eng = run.eng
     run.replayers.append(make_replayer(run))
+    bounded_companion(run, "C06", "parse_diff.py", [str(run.seed)], what="replay/parse_diff.py: corpus + natural pickles x {bytes, seekable stream after a consumed "
+                      "prefix, non-seekable stream, short reads}, misaligned frames, surrogate text, text opcodes at offset 0, stacks: dumps() == the first pickle, "
+                      "stream position, what follows; pickles pickletools accepts must not be refused")
     run.verify("fickle.Pickled.make_stream#bytes")
     run.verify("fickle.Pickled.make_stream#stream", extra_post=make_stream_path)
     run.verify("fickle.Opcode.has_data", "fickle.Opcode.data", "fickle.Opcode.data.setter", "fickle.Pickled.__init__", "fickle.Pickled.__len__",
